@@ -289,6 +289,16 @@ pub fn replay(path: &str) -> i32 {
         return 2;
     };
     let v: serde_json::Value = serde_json::from_str(&s).unwrap_or_default();
+    if v["kind"].as_str() == Some("leak-history") {
+        return crate::leak::replay_history(&v);
+    }
+    if v["kind"].as_str() == Some("child") {
+        return crate::total::replay_child(&v);
+    }
+    if v["kind"].as_str() == Some("history") {
+        println!("replaying {} [{}]: {}", v["property"].as_str().unwrap_or(""), v["class"].as_str().unwrap_or(""), v["message"].as_str().unwrap_or(""));
+        return crate::hist::replay(&v);
+    }
     let cfg = Cfg::from_json(&v["config"]);
     let prop = v["property"].as_str().unwrap_or("").to_string();
     println!("replaying {} [{}]: {}", prop, v["class"].as_str().unwrap_or(""), v["message"].as_str().unwrap_or(""));
@@ -302,6 +312,9 @@ pub fn replay(path: &str) -> i32 {
         _ => {
             let script = lexer::unhex(v["script_hex"].as_str().unwrap_or(""));
             println!("entropy: generate_from_arbitrary({})", lexer::hex(&script));
+            if prop == "C14" {
+                return crate::leak::replay_bytes(&cfg, &script);
+            }
             run_bytes(&cfg, &script, true, false)
         }
     };
